@@ -96,7 +96,14 @@ int main(void)
 				if (!first) putchar(',');
 				first = 0;
 				if (r == 0) { putchar('L'); puthex(stdout, (unsigned char *)linein.s, linein.len); }
-				else { printf("%s", ename(errno)); if (errno == ECONNRESET) break; }
+				else {
+					/* after a failed read the callers look at linein.len (the drain loops of smtp_data()):
+					 * it must be 0; anything else is shown and differs from the model's answer */
+					int e = errno;
+					printf("%s", ename(e));
+					if (linein.len != 0) printf("!len=%zu", linein.len);
+					if (e == ECONNRESET) break;
+				}
 			}
 			putchar('\n');
 			free((void *)src);
